@@ -109,6 +109,21 @@ func (lc *linCtx) expr(v ssa.Value, depth int) lin {
 			}
 		}
 	case *ssa.Call:
+		// a module helper with a single return: its result's linear form (leaves are then values of the helper -
+		// enough for rules that only ask what kind of quantity the leaves are)
+		if cal := x.Call.StaticCallee(); cal != nil && inModule(cal) && cal.Blocks != nil && depth < 6 && isIntType(x.Type()) {
+			var ret *ssa.Return
+			nRet := 0
+			for _, b := range cal.Blocks {
+				if r, ok := lastInstr(b).(*ssa.Return); ok {
+					ret = r
+					nRet++
+				}
+			}
+			if nRet == 1 && len(ret.Results) == 1 {
+				return lc.expr(ret.Results[0], depth+6)
+			}
+		}
 		if bi, ok := x.Call.Value.(*ssa.Builtin); ok && bi.Name() == "len" && len(x.Call.Args) == 1 {
 			arg := x.Call.Args[0]
 			k := fmt.Sprintf("len(%s@%p)", arg.Name(), arg)
@@ -190,6 +205,20 @@ func (lc *linCtx) nonNegLeaf(k string) bool {
 func (lc *linCtx) condFacts(b *ssa.BasicBlock) []lin {
 	var out []lin
 	for _, cc := range controlCondsPol(b) {
+		// slices.Equal(a, b) holds: the two have the same length
+		if call, ok := cc.Cond.(*ssa.Call); ok && cc.Taken && len(call.Call.Args) == 2 {
+			if cal := call.Call.StaticCallee(); cal != nil && cal.Object() != nil && cal.Object().Pkg() != nil && cal.Object().Pkg().Path() == "slices" && cal.Object().Name() == "Equal" {
+				la, lb := newLin(), newLin()
+				for i, l := range []*lin{&la, &lb} {
+					arg := stripConv(call.Call.Args[i])
+					k := fmt.Sprintf("len(%s@%p)", arg.Name(), arg)
+					lc.leaf[k] = call
+					l.t[k] = 1
+				}
+				out = append(out, la.addScaled(lb, -1), lb.addScaled(la, -1))
+			}
+			continue
+		}
 		bo, ok := cc.Cond.(*ssa.BinOp)
 		if !ok || !isIntType(bo.X.Type()) {
 			continue
